@@ -5,83 +5,18 @@ package rangecache
 import (
 	"bytes"
 	"context"
-	"errors"
-	"io"
 	"time"
 )
 
-// c17Remote is the model of the remote file: `size` arbitrary bytes. fetch is the model of the
-// remoteFetcher callback (split-car-fetcher/remote-file.go: remoteReadAt = HTTP range request +
-// io.ReadFull): it either fills ALL of p with the remote bytes at off and returns (len(p), nil),
-// or fails and returns (0, err) having filled nothing; a request that is not inside the file
-// can only fail (the server has no such bytes, io.ReadFull reports io.ErrUnexpectedEOF).
-// Whether a call fails is arbitrary (one nondeterministic boolean per call) when failures are
-// enabled.
-type c17Remote struct {
-	size     int64
-	data     []byte
-	mayFail  bool
-	calls    int
-	fails    int
-	outside  int // calls asking for bytes outside the file
-	lastFail bool
-}
-
-var c17ErrRemote = errors.New("c17: remote fetch failed")
-
-func (m *c17Remote) fetch(p []byte, off int64) (int, error) {
-	m.calls++
-	m.lastFail = false
-	if off < 0 || off > m.size || int64(len(p)) > m.size-off {
-		m.outside++
-		m.fails++
-		m.lastFail = true
-		return 0, io.ErrUnexpectedEOF
-	}
-	if m.mayFail {
-		// a failing fetch may report any error, in particular the ones io.ReadFull produces when the
-		// HTTP body is empty (io.EOF) or ends early (io.ErrUnexpectedEOF)
-		if k := verifChoice("fetch_outcome", 4); k != 0 {
-			m.fails++
-			m.lastFail = true
-			return 0, []error{nil, c17ErrRemote, io.EOF, io.ErrUnexpectedEOF}[k]
-		}
-	}
-	o := verifConcInt(int(off))
-	copy(p, m.data[o:o+len(p)])
-	return len(p), nil
-}
-
-func c17New(size int, mayFail bool) (*RangeCache, *c17Remote) {
-	m := &c17Remote{size: int64(size), data: verifBytes("remote", size), mayFail: mayFail}
-	rc := NewRangeCache(int64(size), "c17", m.fetch)
-	return rc, m
-}
-
-// c17RangeByIndex enumerates the valid ranges [a,b) of a file of the given size:
-// 0 <= a <= b <= size, (size+1)(size+2)/2 of them (empty ranges included).
-func c17RangeByIndex(size, idx int) (int64, int64) {
-	for a := 0; a <= size; a++ {
-		n := size - a + 1
-		if idx < n {
-			return int64(a), int64(a + idx)
-		}
-		idx -= n
-	}
-	panic("c17RangeByIndex: index out of range")
-}
-
-func c17NumRanges(size int) int { return (size + 1) * (size + 2) / 2 }
+// White-box helpers (they name the representation: rc.cache, Range, RangeCacheEntry):
+// used only by the inductive-step lemmas C17.step / C17.step3.
 
 // c17Seed puts an entry satisfying the representation invariant directly into the cache map.
 func c17Seed(rc *RangeCache, m *c17Remote, a, b int64) {
 	v := make([]byte, b-a)
 	copy(v, m.data[a:b])
-	if old, ok := rc.cache[Range{a, b}]; ok {
-		rc.occupiedSpace -= uint64(len(old.Value))
-	}
+	// (the occupiedSpace counter is not part of the property and is left alone: unsigned wrap-around)
 	rc.cache[Range{a, b}] = RangeCacheEntry{Value: v, LastRead: time.Now()}
-	rc.occupiedSpace += uint64(len(v))
 }
 
 // c17Invariant: every cached range lies inside the file and its value is exactly the remote
@@ -129,42 +64,6 @@ func c17SubsetKeys(rc *RangeCache, before []c17Key, label string) {
 		}
 		verifAssert(found, label)
 	}
-}
-
-// c17CheckGet is the oracle for one GetRange(start, ln) that returned (got, err) while the
-// remote was called calls1-calls0 times: refused when the range is not inside the file, else
-// exactly the remote bytes, or an error exactly when the fetch made for this read failed.
-func c17CheckGet(m *c17Remote, id string, start, ln int64, got []byte, err error, failsBefore int) {
-	valid := start >= 0 && start <= m.size && ln >= 0 && ln <= m.size-start
-	if !valid {
-		verifAssert(err != nil, id+": a read that is not inside the file was not refused")
-		verifAssert(got == nil, id+": a refused read returned data")
-		return
-	}
-	failed := m.fails > failsBefore
-	if failed {
-		verifAssert(err != nil, id+": the remote fetch failed but the read returned no error")
-		verifAssert(got == nil, id+": a failed read returned data")
-		return
-	}
-	verifAssert(err == nil, id+": read inside the file failed although no remote fetch failed")
-	verifAssert(int64(len(got)) == ln, id+": returned length differs from the requested length")
-	s := verifConcInt(int(start))
-	verifAssert(bytes.Equal(got, m.data[s:s+len(got)]), id+": returned bytes differ from the remote bytes at that range")
-}
-
-// c17Args picks the (start, ln) arguments of one operation: either one of the valid ranges of
-// the file (concrete, one path each) or ANY pair of 64-bit values that is not a range inside the
-// file (symbolic: negative start or length, past the end, start+ln overflowing int64).
-func c17Args(m *c17Remote, size int) (start, ln int64, valid bool) {
-	mode := verifChoice("args", c17NumRanges(size)+1)
-	if mode == 0 {
-		start, ln = verifI64("start"), verifI64("ln")
-		verifAssume(!(start >= 0 && start <= m.size && ln >= 0 && ln <= m.size-start))
-		return start, ln, false
-	}
-	a, b := c17RangeByIndex(size, mode-1)
-	return a, b - a, true
 }
 
 // c17SeedSet seeds 0..maxK distinct entries at arbitrary valid ranges (any mutual position:
@@ -245,5 +144,52 @@ func VerifC17Step() {
 		verifReach("end-expire")
 	}
 	c17Invariant(rc, m, id)
+	verifReach("end")
+}
+
+// C17.ctx — the same step with a CANCELLED context (the ctx.Err() exits of getRangeFromCache,
+// setRange and DeleteOldEntries, which no production caller takes: ReadAt passes
+// context.Background, only the GC passes the caller's context). An operation may now fail, but
+// what it returns without error is still exactly the remote bytes, nothing wrong is stored, no
+// lock is left held, and the next read with a live context is right.
+func VerifC17Ctx() {
+	const id = "C17.ctx"
+	size := verifParam("size", 3)
+	rc, m := c17New(size, true)
+	c17SeedSet(rc, m, size, verifParam("entries", 2))
+	verifMapOrderNondet(true)
+	ctx, cancel := context.WithCancel(context.Background())
+	cancel()
+
+	start, ln, valid := c17Args(m, size)
+	switch verifChoice("op", 3) {
+	case 0:
+		got, err := rc.GetRange(ctx, start, ln)
+		if !valid {
+			verifAssert(err != nil && got == nil, id+": a read that is not inside the file was not refused")
+		} else if err == nil {
+			verifAssert(int64(len(got)) == ln, id+": returned length differs from the requested length")
+			verifAssert(bytes.Equal(got, m.data[start:start+ln]), id+": returned bytes differ from the remote bytes at that range")
+		} else {
+			verifAssert(got == nil, id+": a failed read returned data")
+		}
+	case 1:
+		if valid {
+			value := make([]byte, ln)
+			copy(value, m.data[start:start+ln])
+			rc.SetRange(ctx, start, ln, value)
+		} else {
+			rc.SetRange(ctx, start, ln, verifBytes("junk", verifChoice("vlen", 3)))
+		}
+	case 2:
+		rc.DeleteOldEntries(ctx, time.Duration(verifI64("max_age")))
+	}
+	c17Invariant(rc, m, id)
+	if valid {
+		verifMapOrderNondet(true)
+		fails0 := m.fails
+		got, err := rc.GetRange(context.Background(), start, ln)
+		c17CheckGet(m, id, start, ln, got, err, fails0)
+	}
 	verifReach("end")
 }
